@@ -13,3 +13,4 @@ open Fzf.Props.C09
 #print axioms C09_excluded_stays_out
 #print axioms C09_constrain_is_source
 #print axioms C09_hidden_input_keeps_query
+#print axioms C09_cursor_on_screen
